@@ -60,3 +60,28 @@ func (t *T) Value() int { return t.v }
 
 // Spawn starts a goroutine: MUST be flagged (concurrency construct).
 func Spawn(f func()) { go f() }
+
+// K is a key-like object with a cached encoding.
+type K struct{ enc []byte }
+
+var sharedEnc = []byte{0}
+
+// NewKView keeps the caller's buffer: MUST be flagged (the object does not own its memory).
+func NewKView(b []byte) *K { return &K{enc: b[1:]} }
+
+// NewKCopy copies the caller's buffer: must NOT be flagged.
+func NewKCopy(b []byte) *K { return &K{enc: append([]byte{}, b...)} }
+
+// Enc hands out the cached slice itself: MUST be flagged.
+func (k *K) Enc() []byte { return k.enc }
+
+// EncCopy hands out a copy: must NOT be flagged.
+func (k *K) EncCopy() []byte { return append([]byte{}, k.enc...) }
+
+// Shared hands out package-level bytes: MUST be flagged.
+func Shared(z bool) []byte {
+	if z {
+		return sharedEnc
+	}
+	return []byte{1}
+}
